@@ -61,7 +61,15 @@ MANIFEST = dict(
          "constructor argument (column-name arguments of every body, texts, header lists, margin, col_rel_width, "
          "figure lists) as list / tuple / bare str / numpy array where the constructors accept it, arguments and "
          "sections mixing containers; the encoder models read the entries of the constructed state and are unaffected "
-         "by the spelling.",
+         "by the spelling. "
+         "Equal boundaries: C01 allows non-decreasing boundaries, and a column whose absolute width rounds to zero twips "
+         "(col_rel_width=[1, 0.0001, 1], the usual way of hiding a helper column) makes two adjacent cells end on the "
+         "same twip; the well-formedness oracle and the byte-exact encoder correspondences (single-section, "
+         "multi-section, nested headers) run a zero-width-column class on every run (harness/zerowidth.py): tiny "
+         "relative widths on one / the last / a run of two or more adjacent / all-but-the-first displayed columns of "
+         "the body and of header rows with their own widths, never on the first cell of a row (that is the listed "
+         "finding C01-cellx0-subtwip-column, explored by its own stream); the exact cumulative widths of the encoder "
+         "model agree with the encoder's floating-point ones on these rows.",
     note="Totality is a theorem about the encoder MODEL (byte-exact against rtf_encode() on every generated document, "
          "exceptions included); of the real encoder it is observed on the configuration product (exceptions other than "
          "the documented ValueError are violations). Configurations the constructors accept outside the quantifier "
@@ -92,7 +100,10 @@ RULE = ("configurations from the product: strategy × header mode (default, expl
         "of every body as list / tuple / bare str, each argument and each section on its own; component texts str / "
         "list / tuple; header list / tuple / single object, header texts list / tuple / frame / str; page margin list / "
         "tuple; col_rel_width of body / headers / footnote / source list / tuple / numpy array; figure list and size "
-        "lists list / tuple / array) on the single-section, multi-section, nested-header and figure streams; non-trivial = ≥ 2 pages or ≥ 2 sections/figures; distinct by configuration tuple")
+        "lists list / tuple / array) on the single-section, multi-section, nested-header and figure streams; × zero-width "
+        "columns (relative width 1e-4 … 1e-9 on one / the last / a run of ≥ 2 adjacent / all but the first / a scattered "
+        "subset of the displayed columns other than the first, body and header rows with own widths, per section: rows "
+        "with equal adjacent \\cellx boundaries) on the mixed, header-variation, multi-section and nested-header streams; non-trivial = ≥ 2 pages or ≥ 2 sections/figures; distinct by configuration tuple")
 
 # ----------------------------------------------------------------------------- real output → grammar tree
 
@@ -302,6 +313,14 @@ def _worker(args):
             from .. import encodecorr
 
             encodecorr.respell(sub_rng(seed, "c01", "argspelling", str(rest[0]), k), spec, info)
+        if fixed is None and len(rest) > 1 and rest[1] == "zerow":
+            # the zero-width-column class (harness/zerowidth.py): the same document of one of the classes above with
+            # tiny relative widths on displayed columns other than the first (one / the last / a run of adjacent
+            # columns / all but the first), in the body and in header rows with their own widths — rows that declare
+            # equal adjacent boundaries
+            from .. import zerowidth
+
+            zerowidth.apply(sub_rng(seed, "c01", "zerowidth", str(rest[0]), k), spec, info)
         st = docgen.encode(spec)
         out = dict(spec=spec, info=info, status=st[0])
         if st[0] == "ok":
@@ -426,7 +445,7 @@ def run(res, build):
     known_lines = findings_stream(res)
 
     emitunit.run(res, res.tier)     # unit level: real Row/Cell/TextContent emitters vs Model/Emit.lean, byte-exact
-    from .. import datashapes, encodecorr
+    from .. import datashapes, encodecorr, zerowidth
 
     # document level: the whole single-section encoder model (Model/Encode.lean = composition of the pagination,
     # layout, border, attribute, colour, width, group_by, conversion, escape and emitter models) must return the
@@ -457,6 +476,9 @@ def run(res, build):
     jobs += [(res.seed, k, None, False, "args") for k in range(n // 4)]
     jobs += [(res.seed, k, None, True, "args") for k in range(n // 10)]
     jobs += [(res.seed, k, None, "shapes", "args") for k in range(n // 6)]
+    # the zero-width-column class (`harness/zerowidth.py`) over the mixed and the header-variation class
+    jobs += [(res.seed, k, None, False, "zerow") for k in range(n // 3)]
+    jobs += [(res.seed, k, None, True, "zerow") for k in range(n // 6)]
     cdir = common.CORPUS / "C01"
     if cdir.exists():
         for i, f in enumerate(sorted(cdir.glob("*.json"))):
@@ -491,6 +513,8 @@ def run(res, build):
                 nt += (str(sorted(set((r, s) for r, _, s in info["data_shapes"]))),)
             if o["spec"].get("spelling"):
                 nt += (str(sorted(o["spec"]["spelling"].items())),)
+            if info.get("zero_width"):
+                nt += (str(sorted(set(info["zero_width"]))),)
         res.case(dict(spec=o["spec"], info=info), nt)
         res.count("kind:" + str(info.get("strategy")))
         res.count("header:" + str(info.get("header_mode")))
@@ -498,6 +522,11 @@ def run(res, build):
         encodecorr.count_header_rows(res, info, prefix="hdrcells:wf")
         datashapes.count(res, info, prefix="datashape:wf")
         encodecorr.count_spelling(res, info, f"spell:wf:{o['spec'].get('kind', 'table')}:{o['status']}")
+        zerowidth.count(res, info, "zerowidth:wf")
+        if info.get("zero_width") and o["status"] == "ok":
+            eq = any(a == b for r in re.findall(r"\\trowd.*?\\row(?![a-z])", o["rtf"], flags=re.S)
+                     for bs in [re.findall(r"\\cellx(-?\d+)", r)] for a, b in zip(bs, bs[1:]))
+            res.count("zerowidth:wf:rows with equal adjacent boundaries:" + ("yes" if eq else "no"))
         if info.get("data_shapes"):
             res.count(f"datashape:wf:pages={min(np_, 3)}{'+' if np_ > 3 else ''}")
         judge(res, o, wf.get(i), tree.get(i))
